@@ -47,61 +47,265 @@ Proof.
   apply le_val_digit; [lia|exact Hs|lia].
 Qed.
 
-(* ---- the loop, one step at a time ---- *)
-Definition next_ix (ix : N) : N := let x := (ix + 255) mod 256 in if x =? 255 then 7 else x.
+Lemma pow2_pos_256 n : 0 < 256 ^ n.
+Proof. apply N.neq_0_lt_0, N.pow_nonzero. lia. Qed.
 
-Lemma nl_first char t buf ix :
-  name_loop (char :: t) 0%nat buf ix = name_loop t 1%nat (buf ++ [char]) ix.
-Proof. reflexivity. Qed.
-
-Lemma nl_step char t j buf ix b : idx buf j = Ok b ->
-  name_loop (char :: t) (S j) buf ix =
-  name_loop t (S (S j))
-    (upd buf j ((N.land b (GetBitMask ((ix + 1) mod 256) 0) + (N.shiftl char ix) mod 256) mod 256)
-       ++ [N.shiftr char (8 - ix)]) (next_ix ix).
-Proof. intro H. cbn [name_loop]. rewrite H. reflexivity. Qed.
-
-(* the loop never panics and emits one octet per character *)
-Lemma name_loop_length chars : forall i buf ix, length buf = i ->
-  exists r, name_loop chars i buf ix = Ok r /\ length r = (i + length chars)%nat.
+(* ---- the specification is consistent: packing per TS 23.038 and unpacking with
+   the TS 24.008 spare-bit count return the septets, for every length ---- *)
+Lemma le_val_bound B l : 0 < B -> Forall (fun c => c < B) l -> le_val B l < B ^ N.of_nat (length l).
 Proof.
-  induction chars as [|c t IH]; intros i buf ix Hl.
-  - exists buf. split; [reflexivity|cbn; lia].
-  - destruct i as [|j].
-    + rewrite nl_first. destruct (IH 1%nat (buf ++ [c]) ix) as (r & Hr & Hlr).
-      { rewrite app_length, Hl. reflexivity. }
-      exists r. split; [exact Hr|]. cbn [length]. lia.
-    + destruct (nth_error buf j) as [b|] eqn:E.
-      * rewrite (nl_step c t j buf ix b) by (unfold idx; rewrite E; reflexivity).
-        destruct (IH (S (S j)) (upd buf j ((N.land b (GetBitMask ((ix + 1) mod 256) 0) +
-                     (N.shiftl c ix) mod 256) mod 256) ++ [N.shiftr c (8 - ix)]) (next_ix ix))
-          as (r & Hr & Hlr).
-        { rewrite app_length, upd_length, Hl. cbn [length]. lia. }
-        exists r. split; [exact Hr|]. cbn [length]. lia.
-      * apply nth_error_None in E. lia.
+  intros HB H. induction l as [|c t IH].
+  - cbn. lia.
+  - pose proof (Forall_inv H) as Hc. cbv beta in Hc. specialize (IH (Forall_inv_tail H)).
+    cbn [le_val length]. rewrite Nat2N.inj_succ, N.pow_succ_r'. nia.
 Qed.
+
+Lemma le_val_digits_of m : forall V, V < 256 ^ N.of_nat m ->
+  le_val 256 (map (fun i => (V / 256 ^ N.of_nat i) mod 256) (seq 0 m)) = V.
+Proof.
+  induction m as [|m IH]; intros V HV.
+  - cbn in *. change (256 ^ 0) with 1 in HV. lia.
+  - cbn [seq map le_val]. rewrite <- seq_shift, map_map.
+    change (256 ^ N.of_nat 0) with 1. rewrite N.div_1_r.
+    rewrite (map_ext _ (fun i => ((V / 256) / 256 ^ N.of_nat i) mod 256)).
+    + rewrite IH.
+      * pose proof (N.div_mod V 256). lia.
+      * rewrite Nat2N.inj_succ, N.pow_succ_r' in HV. apply N.div_lt_upper_bound; lia.
+    + intro i. rewrite Nat2N.inj_succ, N.pow_succ_r', N.div_div by (try apply N.pow_nonzero; lia).
+      reflexivity.
+Qed.
+
+Lemma spec_gsm7_roundtrip s : septets_ok s ->
+  unpack7 (pack7 s) (spare_spec (N.of_nat (length s))) = s /\
+  N.of_nat (length (pack7 s)) = (7 * N.of_nat (length s) + 7) / 8.
+Proof.
+  intro Hs. set (n := N.of_nat (length s)).
+  assert (Hlen : length (pack7 s) = N.to_nat ((7 * n + 7) / 8)).
+  { unfold pack7. rewrite map_length, seq_length. reflexivity. }
+  split; [|rewrite Hlen; lia].
+  apply unpack7_of_val; [exact Hs| |].
+  - unfold pack7. apply le_val_digits_of. fold n.
+    eapply N.lt_le_trans; [apply le_val_bound; [lia|exact Hs]|]. fold n.
+    rewrite N2Nat.id.
+    change 128 with (2 ^ 7). change 256 with (2 ^ 8). rewrite <- !N.pow_mul_r.
+    apply N.pow_le_mono_r; lia.
+  - rewrite Hlen, N2Nat.id. fold n. unfold spare_spec. lia.
+Qed.
+
+(* ---- arithmetic of one iteration ---- *)
+Lemma le_val_app B l1 l2 :
+  le_val B (l1 ++ l2) = le_val B l1 + B ^ N.of_nat (length l1) * le_val B l2.
+Proof.
+  induction l1 as [|c t IH]; cbn [app le_val length].
+  - change (B ^ N.of_nat 0) with (B ^ 0). rewrite N.pow_0_r. lia.
+  - rewrite IH, Nat2N.inj_succ, N.pow_succ_r'. lia.
+Qed.
+
+(* replacing octet k: value changes by 256^k (new - old) *)
+Lemma le_val_upd B buf : forall k v, (k < length buf)%nat ->
+  le_val B (upd buf k v) + B ^ N.of_nat k * nth k buf 0 = le_val B buf + B ^ N.of_nat k * v.
+Proof.
+  induction buf as [|h t IH]; intros k v Hk; [cbn in Hk; lia|].
+  destruct k as [|k]; cbn [upd le_val nth length] in *.
+  - change (B ^ N.of_nat 0) with (B ^ 0). rewrite N.pow_0_r. lia.
+  - specialize (IH k v ltac:(lia)). rewrite Nat2N.inj_succ, N.pow_succ_r'. nia.
+Qed.
+
+Lemma nth_upd_other buf : forall i j v, i <> j -> nth j (upd buf i v) 0 = nth j buf 0.
+Proof.
+  induction buf as [|h t IH]; intros [|i] [|j] v H; cbn; auto; try congruence.
+Qed.
+
+Lemma idx_nth buf k : (k < length buf)%nat -> idx buf k = Ok (nth k buf 0).
+Proof.
+  intro H. unfold idx. destruct (nth_error buf k) as [x|] eqn:E.
+  - apply (nth_error_nth buf k 0) in E. rewrite E. reflexivity.
+  - apply nth_error_None in E. lia.
+Qed.
+
+Lemma bytes_ok_upd buf k v : bytes_ok buf -> v < 256 -> bytes_ok (upd buf k v).
+Proof.
+  unfold bytes_ok, is_byte. revert k. induction buf as [|h t IH]; intros k Hb Hv; [constructor|].
+  destruct k; cbn [upd]; constructor;
+    try exact Hv; try exact (Forall_inv Hb); try exact (Forall_inv_tail Hb).
+  apply IH; [exact (Forall_inv_tail Hb)|exact Hv].
+Qed.
+
+Lemma land_127 c : c < 128 -> N.land c 127 = c.
+Proof. intro. change 127 with (N.ones 7). rewrite land_ones_mod. apply N.mod_small. exact H. Qed.
+
+(* bit position 7 i = 8 k + o *)
+Lemma pow_split i k o : (7 * i = 8 * k + o)%nat ->
+  128 ^ N.of_nat i = 256 ^ N.of_nat k * 2 ^ N.of_nat o.
+Proof.
+  intro H. change 128 with (2 ^ 7). change 256 with (2 ^ 8).
+  rewrite <- !N.pow_mul_r, <- N.pow_add_r. f_equal. lia.
+Qed.
+
+Lemma shl_mod c o : o <= 8 -> (c * 2 ^ o) mod 256 = (c mod 2 ^ (8 - o)) * 2 ^ o.
+Proof.
+  intro H. replace 256 with (2 ^ (8 - o) * 2 ^ o)
+    by (rewrite <- N.pow_add_r; replace (8 - o + o) with 8 by lia; reflexivity).
+  apply N.mul_mod_distr_r; apply N.pow_nonzero; lia.
+Qed.
+
+(* One iteration adds the septet c at bit position 7 i: with m octets of room,
+   it never panics, keeps the length and the octet range, and the little-endian
+   value of the buffer grows by c * 128^i. *)
+Lemma name_step_ok c i buf pre m :
+  c < 128 -> length buf = m -> bytes_ok buf ->
+  le_val 256 buf = le_val 128 pre -> length pre = i -> septets_ok pre ->
+  (7 * i + 7 <= 8 * m)%nat ->
+  exists buf', name_step c i buf = Ok buf' /\ length buf' = m /\ bytes_ok buf' /\
+               le_val 256 buf' = le_val 128 (pre ++ [c]).
+Proof.
+  intros Hc Hlen Hok Hval Hpre Hsep Hroom.
+  unfold name_step. cbv zeta.
+  set (k := ((7 * i) / 8)%nat). set (on := ((7 * i) mod 8)%nat).
+  assert (Hpos : (7 * i = 8 * k + on)%nat) by (subst k on; apply Nat.div_mod; lia).
+  assert (Hon : (on < 8)%nat) by (subst on; apply Nat.mod_upper_bound; lia).
+  assert (Hk : (k < length buf)%nat) by lia.
+  rewrite land_127 by assumption.
+  set (o := N.of_nat on). assert (Ho8 : o < 8) by lia.
+  set (P := 256 ^ N.of_nat k).
+  assert (HP : 0 < P) by (subst P; apply pow2_pos_256).
+  pose proof (pow_split i k on Hpos) as Hsplit. fold P o in Hsplit.
+  set (S := 2 ^ o) in *. set (D := 2 ^ (8 - o)).
+  assert (HS : 0 < S) by (subst S; apply pow2_pos).
+  assert (HD : 0 < D) by (subst D; apply pow2_pos).
+  assert (HDS : D * S = 256).
+  { subst D S. rewrite <- N.pow_add_r. replace (8 - o + o) with 8 by lia. reflexivity. }
+  (* the value so far occupies the bits below 7 i *)
+  assert (HV : le_val 256 buf < P * S).
+  { rewrite Hval, <- Hsplit, <- Hpre. apply le_val_bound; [lia|exact Hsep]. }
+  (* octet k holds only bits below o *)
+  assert (Hb : nth k buf 0 < S).
+  { rewrite <- (le_val_digit 256 buf ltac:(lia) Hok k Hk). fold P.
+    assert (le_val 256 buf / P < S) by (apply N.div_lt_upper_bound; lia).
+    rewrite N.mod_small by nia. assumption. }
+  rewrite (idx_nth buf k Hk). cbn [obind].
+  set (b := nth k buf 0) in *.
+  rewrite shiftl_mul, shl_mod by lia. rewrite lor_disjoint_add' by exact Hb. fold S D.
+  set (L := c mod D). set (H := c / D).
+  assert (HcLH : c = D * H + L) by (subst L H; apply N.div_mod; lia).
+  assert (HL : L < D) by (subst L; apply N.mod_lt; lia).
+  (* value after the first write *)
+  pose proof (le_val_upd 256 buf k (L * S + b) Hk) as HU1.
+  fold P b in HU1.
+  set (buf1 := upd buf k (L * S + b)) in *.
+  assert (Hl1 : length buf1 = m) by (subst buf1; rewrite upd_length; exact Hlen).
+  assert (Hok1 : bytes_ok buf1).
+  { subst buf1. apply bytes_ok_upd; [exact Hok|nia]. }
+  rewrite le_val_app, Hpre. cbn [le_val]. rewrite Hsplit, <- Hval.
+  destruct (N.ltb_spec 1 o) as [Ho|Ho].
+  - (* the septet straddles octets k and k+1 *)
+    assert (Hk1 : (k + 1 < length buf1)%nat) by lia.
+    assert (HP1 : 256 ^ N.of_nat (k + 1) = P * 256)
+      by (subst P; rewrite Nat2N.inj_add, N.pow_add_r; reflexivity).
+    assert (Hz : nth (k + 1) buf1 0 = 0).
+    { subst buf1. rewrite nth_upd_other by lia.
+      rewrite <- (le_val_digit 256 buf ltac:(lia) Hok (k + 1)) by lia.
+      rewrite HP1. rewrite N.div_small by nia. reflexivity. }
+    rewrite (idx_nth buf1 (k + 1) Hk1). cbn [obind]. rewrite Hz, N.lor_0_l, shiftr_div.
+    fold D H.
+    pose proof (le_val_upd 256 buf1 (k + 1) H Hk1) as HU2.
+    rewrite Hz, HP1 in HU2.
+    eexists. split; [reflexivity|]. split; [rewrite upd_length; exact Hl1|].
+    split; [apply bytes_ok_upd; [exact Hok1|subst H; unfold is_byte; nia]|].
+    nia.
+  - (* the septet fits into octet k: c < D *)
+    assert (HDbig : 128 <= D).
+    { subst D. change 128 with (2 ^ 7). apply N.pow_le_mono_r; lia. }
+    assert (H = 0) by (subst H; apply N.div_small; lia).
+    eexists. split; [reflexivity|]. split; [exact Hl1|]. split; [exact Hok1|].
+    nia.
+Qed.
+
+(* ---- the whole loop ---- *)
+Lemma name_loop_ok chars : forall pre i buf m,
+  septets_ok chars -> length buf = m -> bytes_ok buf ->
+  le_val 256 buf = le_val 128 pre -> length pre = i -> septets_ok pre ->
+  (7 * (i + length chars) <= 8 * m)%nat ->
+  exists r, name_loop chars i buf = Ok r /\ length r = m /\ bytes_ok r /\
+            le_val 256 r = le_val 128 (pre ++ chars).
+Proof.
+  induction chars as [|c t IH]; intros pre i buf m Hs Hl Hok Hv Hp Hsp Hroom.
+  - exists buf. rewrite app_nil_r. repeat split; assumption.
+  - pose proof (Forall_inv Hs) as Hc. cbv beta in Hc. pose proof (Forall_inv_tail Hs) as Ht.
+    cbn [length] in Hroom.
+    destruct (name_step_ok c i buf pre m Hc Hl Hok Hv Hp Hsp ltac:(lia))
+      as (buf' & Hstep & Hl' & Hok' & Hv').
+    cbn [name_loop]. rewrite Hstep. cbn [obind].
+    destruct (IH (pre ++ [c]) (S i) buf' m Ht Hl' Hok' Hv') as (r & Hr & Hlr & Hokr & Hvr).
+    + rewrite app_length, Hp. cbn [length]. lia.
+    + unfold septets_ok. apply Forall_app. split; [exact Hsp|constructor; [exact Hc|constructor]].
+    + lia.
+    + exists r. rewrite <- app_assoc in Hvr. repeat split; assumption.
+Qed.
+
+Lemma le_val_repeat0 B n : le_val B (repeat 0 n) = 0.
+Proof. induction n as [|n IH]; cbn [repeat le_val]; [reflexivity|rewrite IH; lia]. Qed.
+
+Lemma bytes_ok_repeat0 n : bytes_ok (repeat 0 n).
+Proof. unfold bytes_ok. induction n; cbn [repeat]; constructor; [unfold is_byte; lia|assumption]. Qed.
+
+(* a list of octets is the list of base-256 digits of its value *)
+Lemma bytes_digits l : bytes_ok l ->
+  l = map (fun i => (le_val 256 l / 256 ^ N.of_nat i) mod 256) (seq 0 (length l)).
+Proof.
+  intro H. rewrite <- (map_nth_seq l) at 1. apply map_ext_in. intros k Hk. apply in_seq in Hk.
+  symmetry. apply le_val_digit; [lia|exact H|lia].
+Qed.
+
+Definition name_octets (n : nat) : nat := Z.to_nat (Z.quot (7 * Z.of_nat n + 7) 8).
+
+Lemma name_octets_N n : N.of_nat (name_octets n) = (7 * N.of_nat n + 7) / 8.
+Proof. unfold name_octets. lia. Qed.
+
+(* the packed text is the specification's, for every length *)
+Lemma name_loop_pack7 s : septets_ok s ->
+  name_loop s 0%nat (repeat 0 (name_octets (length s))) = Ok (pack7 s).
+Proof.
+  intro Hs.
+  destruct (name_loop_ok s [] 0%nat (repeat 0 (name_octets (length s))) (name_octets (length s)) Hs)
+    as (r & Hr & Hl & Hok & Hv).
+  - apply repeat_length.
+  - apply bytes_ok_repeat0.
+  - rewrite le_val_repeat0. reflexivity.
+  - reflexivity.
+  - constructor.
+  - unfold name_octets. lia.
+  - rewrite Hr. f_equal. cbn [app] in Hv.
+    rewrite (bytes_digits r Hok), Hv, Hl. unfold pack7.
+    f_equal. f_equal. unfold name_octets. lia.
+Qed.
+
+Lemma pack7_length s : length (pack7 s) = name_octets (length s).
+Proof. unfold pack7. rewrite map_length, seq_length. unfold name_octets. lia. Qed.
 
 (* ---- the information element built around the packed text ---- *)
 Lemma land_7 x : N.land x 7 = x mod 8.
 Proof. change 7 with (N.ones 3). apply land_ones_mod. Qed.
 
-Lemma NetworkNameToNas_closed s : (length s < 255)%nat ->
-  exists buf, name_loop s 0%nat [] 7 = Ok buf /\ length buf = length s /\
-    NetworkNameToNas s =
-      Ok (1 + N.of_nat (length s), (128 + spare_spec (N.of_nat (length s))) :: buf).
+(* 290 septets = 254 text octets is the capacity of the element (Len <= 255) *)
+Lemma NetworkNameToNas_closed s : septets_ok s -> (length s <= 290)%nat ->
+  NetworkNameToNas s =
+    Ok (1 + N.of_nat (length (pack7 s)), (128 + spare_spec (N.of_nat (length s))) :: pack7 s).
 Proof.
-  intro Hn. destruct (name_loop_length s 0%nat [] 7 eq_refl) as (buf & Hb & Hl).
-  cbn [Nat.add] in Hl. exists buf. split; [exact Hb|]. split; [exact Hl|].
-  unfold NetworkNameToNas. rewrite Hb. cbn [obind]. rewrite Hl.
-  assert (E : N.to_nat (u8 (1 + Z.of_nat (length s))) = S (length s)) by (unfold u8; lia).
+  intros Hs Hn. unfold NetworkNameToNas. cbv zeta.
+  change (Z.to_nat (Z.quot (7 * Z.of_nat (length s) + 7) 8)) with (name_octets (length s)).
+  rewrite (name_loop_pack7 s Hs). cbn [obind].
+  pose proof (pack7_length s) as Hl. set (txt := pack7 s) in *.
+  assert (Hm : (length txt <= 254)%nat) by (rewrite Hl; unfold name_octets; lia).
+  assert (E : N.to_nat (u8 (1 + Z.of_nat (length txt))) = S (length txt)) by (unfold u8; lia).
   rewrite E. cbn [repeat idx nth_error obind upd].
   unfold slice_from, slice. cbn [length]. rewrite repeat_length.
-  replace ((1 <=? S (length s)) && (S (length s) <=? S (length s)))%nat%bool with true by lia.
-  cbn [obind skipn firstn]. replace (S (length s) - 1)%nat with (length s) by lia.
-  rewrite (firstn_all2 (repeat 0 (length s))) by (rewrite repeat_length; lia).
+  replace ((1 <=? S (length txt)) && (S (length txt) <=? S (length txt)))%nat%bool with true by lia.
+  cbn [obind skipn firstn]. replace (S (length txt) - 1)%nat with (length txt) by lia.
+  rewrite (firstn_all2 (repeat 0 (length txt))) by (rewrite repeat_length; lia).
   rewrite repeat_length, Nat.min_id.
-  rewrite (firstn_all2 buf) by lia.
-  rewrite (skipn_all2 (repeat 0 (length s))) by (rewrite repeat_length; lia).
+  rewrite (firstn_all2 txt) by lia.
+  rewrite (skipn_all2 (repeat 0 (length txt))) by (rewrite repeat_length; lia).
   rewrite app_nil_r.
   f_equal. f_equal; [unfold u8; lia|]. cbn [app]. f_equal.
   change (N.land 0 143) with 0. change (N.land 0 7) with 0. change (N.shiftl 0 4) with 0.
@@ -113,122 +317,31 @@ Proof.
   change (N.land 128 248) with 128. rewrite land_7. unfold u8, spare_spec. lia.
 Qed.
 
-(* the stored spare-bit count is the standard's, for every length *)
-Lemma name_spare s : (length s < 255)%nat ->
-  exists len b0 txt, NetworkNameToNas s = Ok (len, b0 :: txt) /\
-    b0 mod 8 = spare_spec (N.of_nat (length s)) /\ b0 / 8 = 16 /\
-    len = 1 + N.of_nat (length txt) /\ length txt = length s.
-Proof.
-  intro Hn. destruct (NetworkNameToNas_closed s Hn) as (buf & _ & Hl & E).
-  eexists _, _, _. split; [exact E|]. unfold spare_spec. rewrite Hl. repeat split; lia.
-Qed.
-
-(* ---- lengths 0..7: the packed text is right ---- *)
-Lemma land_mask_255 x : N.land x 255 = x mod 256.
-Proof. change 255 with (N.ones 8). apply land_ones_mod. Qed.
-Lemma land_mask_127 x : N.land x 127 = x mod 128.
-Proof. change 127 with (N.ones 7). apply land_ones_mod. Qed.
-Lemma land_mask_63 x : N.land x 63 = x mod 64.
-Proof. change 63 with (N.ones 6). apply land_ones_mod. Qed.
-Lemma land_mask_31 x : N.land x 31 = x mod 32.
-Proof. change 31 with (N.ones 5). apply land_ones_mod. Qed.
-Lemma land_mask_15 x : N.land x 15 = x mod 16.
-Proof. change 15 with (N.ones 4). apply land_ones_mod. Qed.
-Lemma land_mask_3 x : N.land x 3 = x mod 4.
-Proof. change 3 with (N.ones 2). apply land_ones_mod. Qed.
-Lemma land_mask_1 x : N.land x 1 = x mod 2.
-Proof. change 1 with (N.ones 1). apply land_ones_mod. Qed.
-
-Ltac nl_steps :=
-  rewrite ?nl_first; cbn [app];
-  repeat (erewrite nl_step by reflexivity; cbn [upd app];
-          match goal with |- context[next_ix ?k] =>
-            let v := eval vm_compute in (next_ix k) in change (next_ix k) with v end).
-
-Ltac arith_norm :=
-  repeat match goal with |- context[GetBitMask ?a ?b] =>
-    let v := eval vm_compute in (GetBitMask a b) in change (GetBitMask a b) with v end;
-  rewrite ?land_mask_255, ?land_mask_127, ?land_mask_63, ?land_mask_31, ?land_mask_15,
-          ?land_7, ?land_mask_3, ?land_mask_1, ?shiftl_mul, ?shiftr_div;
-  repeat match goal with |- context[2 ^ ?k] =>
-    let v := eval vm_compute in (2 ^ k) in change (2 ^ k) with v end;
-  repeat match goal with |- context[8 - ?k] =>
-    let v := eval vm_compute in (8 - k) in change (8 - k) with v end.
-
-(* one packed octet: the high bits of a septet (already shifted down) and the low
-   bits of the next one; masks and wrap-around are no-ops on septets *)
-Lemma oct7 x c : x < 128 -> (x mod 256 + (c * 128) mod 256) mod 256 = x + 128 * (c mod 2).
-Proof. intro. lia. Qed.
-Lemma oct6 x c : x < 64 -> (x mod 128 + (c * 64) mod 256) mod 256 = x + 64 * (c mod 4).
-Proof. intro. lia. Qed.
-Lemma oct5 x c : x < 32 -> (x mod 64 + (c * 32) mod 256) mod 256 = x + 32 * (c mod 8).
-Proof. intro. lia. Qed.
-Lemma oct4 x c : x < 16 -> (x mod 32 + (c * 16) mod 256) mod 256 = x + 16 * (c mod 16).
-Proof. intro. lia. Qed.
-Lemma oct3 x c : x < 8 -> (x mod 16 + (c * 8) mod 256) mod 256 = x + 8 * (c mod 32).
-Proof. intro. lia. Qed.
-Lemma oct2 x c : x < 4 -> (x mod 8 + (c * 4) mod 256) mod 256 = x + 4 * (c mod 64).
-Proof. intro. lia. Qed.
-Lemma oct1 x c : x < 2 -> (x mod 4 + (c * 2) mod 256) mod 256 = x + 2 * (c mod 128).
-Proof. intro. lia. Qed.
-
-Lemma name_loop_val_le7 s : septets_ok s -> (length s <= 7)%nat ->
-  exists buf, name_loop s 0%nat [] 7 = Ok buf /\ le_val 256 buf = le_val 128 s.
-Proof.
-  intros Hs Hn. unfold septets_ok in Hs.
-  destruct s as [|c0 [|c1 [|c2 [|c3 [|c4 [|c5 [|c6 [|c7 t]]]]]]]]; cbn [length] in Hn; try lia;
-    repeat match goal with H : Forall _ (_ :: _) |- _ =>
-      let Hc := fresh "Hc" in
-      pose proof (Forall_inv H) as Hc; cbv beta in Hc; apply Forall_inv_tail in H end;
-    nl_steps; eexists; (split; [reflexivity|]);
-    arith_norm; rewrite ?oct7, ?oct6, ?oct5, ?oct4, ?oct3, ?oct2, ?oct1 by lia;
-    cbn [le_val]; lia.
-Qed.
-
-Lemma name_partial s : septets_ok s -> (length s <= 7)%nat ->
+(* the full statement, for every name the element can hold *)
+Lemma name_full s : septets_ok s -> (length s <= 290)%nat ->
   exists len b0 txt, NetworkNameToNas s = Ok (len, b0 :: txt) /\
     b0 = 128 + spare_spec (N.of_nat (length s)) /\
     len = 1 + N.of_nat (length txt) /\
+    txt = pack7 s /\ N.of_nat (length txt) = (7 * N.of_nat (length s) + 7) / 8 /\
     unpack7 txt (b0 mod 8) = s.
 Proof.
-  intros Hs Hn.
-  destruct (NetworkNameToNas_closed s ltac:(lia)) as (buf & Hb & Hl & E).
-  destruct (name_loop_val_le7 s Hs Hn) as (buf' & Hb' & Hv).
-  rewrite Hb in Hb'. inversion Hb'; subst buf'. clear Hb'.
-  eexists _, _, _. split; [exact E|]. split; [reflexivity|]. split; [rewrite Hl; reflexivity|].
-  apply unpack7_of_val; [exact Hs|exact Hv|].
-  rewrite Hl. unfold spare_spec.
-  assert (N.of_nat (length s) <= 7) by lia.
-  generalize dependent (N.of_nat (length s)). intros n _ Hn'. clear - Hn'. lia.
+  intros Hs Hn. eexists _, _, _. split; [apply NetworkNameToNas_closed; assumption|].
+  destruct (spec_gsm7_roundtrip s Hs) as [Hu Hlen].
+  split; [reflexivity|]. split; [reflexivity|]. split; [reflexivity|]. split; [exact Hlen|].
+  replace ((128 + spare_spec (N.of_nat (length s))) mod 8) with (spare_spec (N.of_nat (length s)))
+    by (unfold spare_spec; lia).
+  exact Hu.
 Qed.
 
-(* ---- lengths 8..254: always wrong: the text decodes to more septets than the name has ---- *)
-Lemma unpack7_length octs spare :
-  length (unpack7 octs spare) = N.to_nat ((8 * N.of_nat (length octs) - spare) / 7).
-Proof. unfold unpack7. cbv zeta. rewrite map_length, seq_length. reflexivity. Qed.
+(* beyond the capacity: 291 characters make the length octet wrap to 0 and the
+   first setter index an empty Buffer (panic); from 292 on the length octet is
+   small and the text is silently cut *)
+Lemma name_beyond_capacity :
+  NetworkNameToNas (repeat 65 291) = Panic /\ NetworkNameToNas (repeat 65 292) = Ok (1, [132]).
+Proof. split; vm_compute; reflexivity. Qed.
 
-Lemma name_wrong_from_8 s : (8 <= length s < 255)%nat ->
-  exists len b0 txt, NetworkNameToNas s = Ok (len, b0 :: txt) /\
-    length txt = length s /\
-    (length (unpack7 txt (b0 mod 8)) > length s)%nat /\ unpack7 txt (b0 mod 8) <> s.
-Proof.
-  intro Hn. destruct (NetworkNameToNas_closed s ltac:(lia)) as (buf & Hb & Hl & E).
-  eexists _, _, _. split; [exact E|]. split; [exact Hl|].
-  assert (Hlen : (length (unpack7 buf ((128 + spare_spec (N.of_nat (length s))) mod 8)) > length s)%nat).
-  { rewrite unpack7_length, Hl. unfold spare_spec. lia. }
-  split; [exact Hlen|]. intro Eq. rewrite Eq in Hlen. lia.
-Qed.
-
-(* witnesses (F13): "ABCDEFGH" and "ABCDEFGHIJ" *)
-Lemma name_refuted :
-  NetworkNameToNas [65;66;67;68;69;70;71;72] = Ok (9, [128; 65;225;144;88;52;30;145;0]) /\
-  unpack7 [65;225;144;88;52;30;145;0] 0 = [65;66;67;68;69;70;71;72;0] /\
-  pack7 [65;66;67;68;69;70;71;72] = [65;225;144;88;52;30;145] /\
-  NetworkNameToNas [65;66;67;68;69;70;71;72;73;74] = Ok (11, [130; 65;225;144;88;52;30;145;73;0;37]) /\
-  unpack7 [65;225;144;88;52;30;145;73;0;37] 2 = [65;66;67;68;69;70;71;72;73;0;20] /\
-  pack7 [65;66;67;68;69;70;71;72;73;74] = [65;225;144;88;52;30;145;73;37].
-Proof. repeat split; vm_compute; reflexivity. Qed.
-
-(* a name of 255 characters makes the length octet wrap to 0 and the first setter panic *)
-Lemma name_255_panics : NetworkNameToNas (repeat 65 255) = Panic.
-Proof. vm_compute. reflexivity. Qed.
+(* the former defect F13 (fixed by commit 12a658d) *)
+Lemma name_former_F13 :
+  NetworkNameToNas [65;66;67;68;69;70;71;72] = Ok (8, [128; 65;225;144;88;52;30;145]) /\
+  NetworkNameToNas [65;66;67;68;69;70;71;72;73;74] = Ok (10, [130; 65;225;144;88;52;30;145;73;37]).
+Proof. split; vm_compute; reflexivity. Qed.
